@@ -21,6 +21,7 @@ atexit.register(_restore)
 assert subprocess.run(['git', '-C', '/repo', 'status', '--porcelain'], capture_output=True, text=True).stdout.strip() == '', '/repo is not clean'
 for d in sorted(glob.glob(os.path.join(V, 'seeded', 'C*_m*'))):
     name = os.path.basename(d)
+    if os.environ.get('SEEDS') and not re.search(os.environ['SEEDS'], name): continue
     meta = json.load(open(os.path.join(d, 'meta.json')))
     props = ([] if os.environ.get('ONLY_EXTRA') else [meta['property']]) + extra.get(name, [])
     if not props: continue
